@@ -43,6 +43,15 @@ pub fn any_txt<const N: usize, const W: usize>(spans: [(usize, usize); W], last_
     Txt { chars, classes, words }
 }
 
+/// Like `any_txt(.., Mode::Full)` but with CONCRETE stem lengths (the matcher's scan range
+/// depends on them; concrete stems keep its loops bounded by the shape).
+pub fn any_txt_stems<const N: usize, const W: usize>(spans: [(usize, usize); W], stems: [usize; W], last_fin: bool) -> Txt<N, W> {
+    let mut t = any_txt::<N, W>(spans, last_fin, Mode::Full);
+    let mut w = 0;
+    while w < W { t.words[w].stem = stems[w]; w += 1; }
+    t
+}
+
 impl<const N: usize, const W: usize> Txt<N, W> {
     pub fn text(&self) -> TextRef<'_> {
         TextRef { words: &self.words, source: &self.chars, chars: &self.chars, classes: &self.classes }
